@@ -10,7 +10,7 @@ clean() { git -C "$WT" checkout -q -- . ; git -C "$WT" clean -qfd; }
 clean
 git -C "$WT" checkout -q --detach "$(git -C /repo rev-parse HEAD)" || { echo "NOT-CONFIRMED: cannot move worktree to /repo HEAD"; exit 2; }
 # the demonstration's run.sh was written for the agent's worktree path; run it with WT substituted
-RUN="$D/.run.confirm.sh"; sed "s#/tmp/seeds/wt-C[0-9][0-9]#$WT#g" "$D/run.sh" > "$RUN"; chmod +x "$RUN"
+RUN="$D/.run.confirm.sh"; sed "s#/tmp/seeds/wt9\\?-C[0-9][0-9]#$WT#g" "$D/run.sh" > "$RUN"; chmod +x "$RUN"
 ( cd "$D" && bash "$RUN" ) > "$D/confirm.without.log" 2>&1; r0=$?
 clean
 git -C "$WT" apply "$D/patch.diff" || { echo "NOT-CONFIRMED: patch does not apply to /repo HEAD"; rm -f "$RUN"; exit 2; }
